@@ -179,3 +179,33 @@ Proof.
     rewrite Hi. rewrite IHl; rewrite <- app_assoc; simpl; [reflexivity|exact Hs]. }
   rewrite Hins; [reflexivity|]. simpl. apply Hsorted.
 Qed.
+
+(* ------------------------------------------------------------------ buffer offset arithmetic as an invariant
+   The (start,size) intervals of the messageInformation_ entries of one buffer are laid out in ascending process order
+   without overlap, inside the buffer, and their sizes add up to exactly the buffer size build() allocates. *)
+Lemma minfos_layout : forall szs szd ifs b0 b1,
+  c05_layout_ok (map c05_iv_send (c05_minfos_def szs szd ifs b0 b1)) b0 (b0 + c05_total szs fst ifs) /\
+  c05_layout_ok (map c05_iv_recv (c05_minfos_def szs szd ifs b0 b1)) b1 (b1 + c05_total szd snd ifs).
+Proof.
+  intros szs szd ifs. induction ifs as [|[q [s r]] t IH]; intros b0 b1.
+  - unfold c05_layout_ok, c05_total; simpl. rewrite !Nat.add_0_r, !Nat.sub_diag. repeat split; constructor.
+  - specialize (IH (b0 + c05_msgsize szs s) (b1 + c05_msgsize szd r)). destruct IH as [[S1 [F1 L1]] [S2 [F2 L2]]].
+    unfold c05_total in *. cbn [map list_sum fst snd]. cbn [c05_minfos_def].
+    destruct (Nat.ltb_spec 0 (c05_msgsize szs s + c05_msgsize szd r)) as [Hpos|Hz]; simpl app.
+    + rewrite !map_cons. unfold c05_iv_send at 1, c05_iv_recv at 1. simpl fst; simpl snd.
+      split; (split; [|split]).
+      * constructor; [exact S1|]. rewrite Forall_forall in *. intros a Ha. destruct (F1 a Ha) as [Fa Fb]. simpl in *. lia.
+      * constructor; [simpl in *; lia|]. rewrite Forall_forall in *. intros a Ha. destruct (F1 a Ha) as [Fa Fb]. simpl in *. lia.
+      * simpl. rewrite L1. lia.
+      * constructor; [exact S2|]. rewrite Forall_forall in *. intros a Ha. destruct (F2 a Ha) as [Fa Fb]. simpl in *. lia.
+      * constructor; [simpl in *; lia|]. rewrite Forall_forall in *. intros a Ha. destruct (F2 a Ha) as [Fa Fb]. simpl in *. lia.
+      * simpl. rewrite L2. lia.
+    + assert (c05_msgsize szs s = 0 /\ c05_msgsize szd r = 0) as [Z1 Z2] by lia.
+      rewrite Z1, Z2, !Nat.add_0_r in *. simpl. split; (split; [|split]); assumption.
+Qed.
+
+Lemma P_layout : forall szs szd ifs,
+  let cm := c05_comm_build szs szd ifs in
+  c05_layout_ok (map c05_iv_send (c05_cm_info cm)) 0 (c05_cm_b0 cm) /\
+  c05_layout_ok (map c05_iv_recv (c05_cm_info cm)) 0 (c05_cm_b1 cm).
+Proof. intros. unfold cm. rewrite comm_build_spec. simpl. apply (minfos_layout szs szd ifs 0 0). Qed.
